@@ -180,7 +180,9 @@ static std::string handle(const std::string& cmd, const std::string& args) {
     static const char* const vals[] = {"?", ".", "0", "-1", "1", "2", "2147483647", "-2147483648", "99999999999999999999",
       "4294967296", "1e308", "-1e-320", "abc", "'a b'", "''", "0.5", "-0.0", ";text\n;", "A", "1555", "1_555", "x,y,z", "1-2",
       "(1-3)(4,5)", "(X0)(1-60)", "999", "-999", "1.5(3)", "nan", "inf", "P 1", "H", "yes", "n", "1,2,,3", "-", "+", "1e", "0x10",
-      "2000-13-45", "?.", "\"q\"", "1 2"};
+      "2000-13-45", "?.", "\"q\"", "1 2",
+      // ranges that expand: huge, ending at INT_MAX, many in one value (appended: the indices above are referred to by number)
+      "1-2000000000", "2147483640-2147483647", "(1-999999999)", "1-300000,1-300000,1-300000,1-300000,1-300000"};
     const int nvals = sizeof(vals) / sizeof(vals[0]);
     const std::string& kind = w.at(0);
     auto& pr = cols.at((size_t) to_ll(w.at(2)) % cols.size());
